@@ -17,12 +17,13 @@ Theorem C10_if_false_nothing : forall w gen s c th thfi fi,
   if_condition w (cg_r s) c = Ok false ->
   gen_one w gen s (AIf c th thfi None fi) = Ok (s, []).
 Proof. exact if_false_nothing. Qed.
-(** non-zero (negative included) is true; zero, an undefined name is false *)
+(** non-zero (negative included) is true; zero, an undefined name is false; every other failure of
+    the evaluation (an operator the evaluator does not know, ...) is a failure of the assembly *)
 Theorem C10_condition : forall w r c,
   if_condition w r c =
   match eval_raw w r c with
   | Ok v => Ok (negb (v =? 0))
-  | Err ESymbol | Err EKey => Ok false
+  | Err ESymbol => Ok false
   | Err k => Err k
   | OutOfFuel => OutOfFuel
   end.
